@@ -25,10 +25,10 @@ def C(key, op, kind="none", arg=""):
 
 # the queries/events of spec/mc/C19_pubsub.tla (MCQueries / MCEvents), same order
 MC_QUERIES = [[C("tx.height", ">", "int", "5")],
-              [C("tm.event", "=", "str", "Tx")],
-              [C("tm.event", "EXISTS")]]
-MC_EVENTS = [[{"k": "tm.event", "v": ["Tx"]}, {"k": "tx.height", "v": ["7"]}],
-             [{"k": "tm.event", "v": ["Tx"]}, {"k": "tx.height", "v": ["abc"]}],
+              [C("a.s", "=", "str", "x y")],
+              [C("a.s", "=", "str", "x  y")]]
+MC_EVENTS = [[{"k": "tm.event", "v": ["Tx"]}, {"k": "tx.height", "v": ["7"]}, {"k": "a.s", "v": ["x y"]}],
+             [{"k": "tm.event", "v": ["Tx"]}, {"k": "tx.height", "v": ["abc"]}, {"k": "a.s", "v": ["x  y"]}],
              [{"k": "tm.event", "v": ["NewBlock"]}]]
 
 PS_QUERIES = [
@@ -49,13 +49,28 @@ PS_QUERIES = [
 ]
 PS_ERRING = [2, 4, 5, 6, 10, 11]     # indices into PS_QUERIES that can evaluate to an error
 
+# NEAR-DUPLICATE queries: different queries of the language (a quoted operand is compared
+# exactly) whose texts differ only in white space inside the quotes (blank runs, tab) or in
+# letter case, each pair with event values that tell the two apart.  A server that keys
+# subscriptions by anything coarser than the exact query text confuses them.
+NEAR_DUP = [
+    ([C("a.s", "=", "str", "x y")], [C("a.s", "=", "str", "x  y")], ["x y"], ["x  y"]),
+    ([C("a.s", "=", "str", "x y")], [C("a.s", "=", "str", "x\ty")], ["x y"], ["x\ty"]),
+    ([C("a.s", "=", "str", " x")], [C("a.s", "=", "str", "x")], [" x"], ["x"]),
+    ([C("a.s", "CONTAINS", "str", "b  c")], [C("a.s", "CONTAINS", "str", "b c")], ["ab  cd"], ["ab cd"]),
+    ([C("a.s", "=", "str", "XY")], [C("a.s", "=", "str", "xy")], ["XY"], ["xy"]),
+    ([C("tm.event", "=", "str", "Tx"), C("a.s", "=", "str", "x y ")],
+     [C("tm.event", "=", "str", "Tx"), C("a.s", "=", "str", "x y")], ["x y "], ["x y"]),
+]
+
 V_TM = [["Tx"], ["NewBlockHeader"]]
 V_HEIGHT = [None, ["3"], ["7"], ["abc"], ["abc", "7"], ["7", "abc"]]
 V_AN = [None, ["10"], ["1.5"], ["10atom"], ["abc"], [""], ["3/4"], ["2", "10"], ["1.2.3"], ["007"]]
-V_AS = [None, ["x"], ["xy"], ["y/z"], ["x", "b"]]
+V_AS = [None, ["x"], ["xy"], ["y/z"], ["x", "b"], ["x y"], ["x  y"], ["x\ty"], ["XY"]]
 
 
-def mk_events(rng, err_bias=0.5):
+def mk_events(rng, err_bias=0.5, as_values=None):
+    """as_values: a.s values that must be likely (the ones that tell near-duplicates apart)"""
     if rng.random() < 0.05:
         return []
     ev = [{"k": "tm.event", "v": rng.choice(V_TM)}]
@@ -68,9 +83,27 @@ def mk_events(rng, err_bias=0.5):
     if an is not None:
         ev.append({"k": "a.n", "v": an})
     as_ = rng.choice(V_AS)
+    if as_values and rng.random() < 0.6:
+        as_ = rng.choice(as_values)
     if as_ is not None:
         ev.append({"k": "a.s", "v": as_})
     return ev
+
+
+def render(conds, spell=0):
+    """The query text the harness will build (mirror of c19RenderSpelled), used to make sure
+    two query ids of one schedule never denote the same text."""
+    sp, and_ = {0: (" ", " AND "), 1: ("", " AND "), 2: ("  ", "  AND  ")}[spell]
+    parts = []
+    for c in conds:
+        pre = " " if sp == "" and c["op"] in ("EXISTS", "CONTAINS") else sp
+        if c["op"] == "EXISTS":
+            parts.append(c["key"] + pre + "EXISTS")
+        elif c["kind"] == "str":
+            parts.append(c["key"] + pre + c["op"] + sp + "'" + c["arg"] + "'")
+        else:
+            parts.append(c["key"] + pre + c["op"] + sp + c["arg"])
+    return and_.join(parts)
 
 
 def random_sched(rng, k, reps):
@@ -85,17 +118,53 @@ def random_sched(rng, k, reps):
     qidx = list(dict.fromkeys(qidx))
     nq = len(qidx)
     queries = [PS_QUERIES[i] for i in qidx]
+    spell = [0] * len(queries)
+    as_values = []
+    # near-duplicate pairs (most schedules) ...
+    for qa, qb, va, vb in rng.sample(NEAR_DUP, rng.choice([0, 1, 1, 1, 2])):
+        pair = [qa, qb]
+        rng.shuffle(pair)
+        queries += pair
+        spell += [0, 0]
+        as_values += [va, vb]
+    # ... and, separately, textually different but equivalent spellings of one query
+    for _ in range(rng.choice([0, 0, 1, 2])):
+        k = rng.randrange(len(queries))
+        # (two ids with the same conditions AND the same spelling would be ONE query text)
+        free = [x for x in (0, 1, 2) if all(not (q == queries[k] and sp == x) for q, sp in zip(queries, spell))]
+        if free:
+            queries.append(queries[k])
+            spell.append(rng.choice(free))
+    # one id per query TEXT: (conditions, spelling) pairs must be unique
+    uq, usp = [], []
+    for q, sp in zip(queries, spell):
+        if not any(render(q, sp) == render(q2, sp2) for q2, sp2 in zip(uq, usp)):
+            uq.append(q)
+            usp.append(sp)
+    queries, spell = uq, usp
+    order = list(range(len(queries)))
+    rng.shuffle(order)
+    queries = [queries[i] for i in order][:8]
+    spell = [spell[i] for i in order][:8]
+    nq = len(queries)
+    dupq = [i + 1 for i, q in enumerate(queries) if any(q in (a, b) for a, b, _va, _vb in NEAR_DUP)]
     steps = []
     nsub = 0
-    # opening: most clients subscribe to something (both subscription orders occur across schedules)
+    # opening: most clients subscribe to something (both subscription orders occur across schedules);
+    # the members of a near-duplicate pair are subscribed by different clients and by the same one
+    opening = []
     for c in rng.sample(clients, ncl):
         for _ in range(rng.randint(1, 2)):
-            steps.append({"op": "Subscribe", "c": c, "q": rng.randint(1, nq), "cap": rng.choice([0, 1, 1, 2, 3])})
-            nsub += 1
+            opening.append({"op": "Subscribe", "c": c, "q": rng.randint(1, nq), "cap": rng.choice([0, 1, 1, 2, 3])})
+    for q in dupq:
+        opening.append({"op": "Subscribe", "c": rng.choice(clients), "q": q, "cap": rng.choice([0, 0, 2, 3])})
+    rng.shuffle(opening)
+    steps += opening
+    nsub += len(opening)
     for _ in range(rng.randint(6, 16)):
         x = rng.random()
         if x < 0.5:
-            steps.append({"op": "Publish", "events": mk_events(rng)})
+            steps.append({"op": "Publish", "events": mk_events(rng, as_values=as_values)})
         elif x < 0.65:
             steps.append({"op": "Subscribe", "c": rng.choice(clients), "q": rng.randint(1, nq),
                           "cap": rng.choice([0, 1, 2, 3])})
@@ -106,7 +175,7 @@ def random_sched(rng, k, reps):
             steps.append({"op": "UnsubscribeAll", "c": rng.choice(clients)})
         else:
             steps.append({"op": "Consume", "sid": rng.randint(1, max(1, nsub))})
-    return {"clients": clients, "queries": queries, "cmdcap": rng.choice([0, 0, 1, 3]), "steps": steps,
+    return {"clients": clients, "queries": queries, "spell": spell, "cmdcap": rng.choice([0, 0, 1, 3]), "steps": steps,
             "reps": reps, "tag": "random-%d" % k}
 
 
@@ -126,11 +195,12 @@ def sched_from_acts(acts, tag, reps, cmdcap=0):
             steps.append({"op": "Publish", "events": MC_EVENTS[a["e"] - 1]})
         elif n == "Consume":
             steps.append({"op": "Consume", "sid": a["sid"]})
-    return {"clients": ["c1", "c2"], "queries": MC_QUERIES, "cmdcap": cmdcap, "steps": steps, "reps": reps, "tag": tag}
+    return {"clients": ["c1", "c2"], "queries": MC_QUERIES, "spell": [0] * len(MC_QUERIES), "cmdcap": cmdcap,
+            "steps": steps, "reps": reps, "tag": tag}
 
 
 def sched_key(s):
-    return json.dumps([s["clients"], s["queries"], s["cmdcap"], s["steps"]], sort_keys=True)
+    return json.dumps([s["clients"], s["queries"], s.get("spell"), s["cmdcap"], s["steps"]], sort_keys=True)
 
 
 def eval_cases(rng, n):
@@ -142,7 +212,7 @@ def eval_cases(rng, n):
                               ("int", "7"), ("float", "3.25")):
                 conds.append(C(key, op, kind, arg))
     for key in ("a.s", "a.n", "tm.event"):
-        for arg in ("x", "xy", "", "y/z", "10", "Tx", "1.5"):
+        for arg in ("x", "xy", "", "y/z", "10", "Tx", "1.5", "x y", "x  y", "x\ty", " x", "XY", "b c"):
             conds.append(C(key, "=", "str", arg))
             conds.append(C(key, "CONTAINS", "str", arg))
     for key in ("a.s", "a.n", "a", "tx", "tm.event", "b.z", "a."):
@@ -150,13 +220,14 @@ def eval_cases(rng, n):
     cases = []
     for _ in range(n):
         q = [rng.choice(conds) for _ in range(rng.choice([1, 1, 2, 2, 3]))]
-        cases.append({"q": q, "events": mk_events(rng)})
+        cases.append({"q": q, "spell": rng.choice([0, 0, 1, 2]), "events": mk_events(rng)})
     # every single condition against every single-attribute event (systematic part)
     for c in conds:
-        for vals in V_AN + V_AS + [["1."], [".5"], ["."], ["x3.25y"], ["-5"], ["5e3"], ["12abc3"]]:
+        for vals in V_AN + V_AS + [["1."], [".5"], ["."], ["x3.25y"], ["-5"], ["5e3"], ["12abc3"], [" x"], ["ab  cd"],
+                                   ["ab cd"], ["x y "]]:
             if vals is None:
                 continue
-            cases.append({"q": [c], "events": [{"k": c["key"] if "." in c["key"] and c["key"] != "a." else "a.n",
+            cases.append({"q": [c], "spell": (len(cases) % 3), "events": [{"k": c["key"] if "." in c["key"] and c["key"] != "a." else "a.n",
                                                  "v": vals}]})
     return cases
 
@@ -279,7 +350,7 @@ def pubsub_body(ctx, st, main_ex, main_futs):
     st["graph_schedules"] = ngraph
     del g
     # simulation of the full design config (longer histories, queued commands)
-    nsim = 60 if quick else 600
+    nsim = 150 if quick else 600
     pref = os.path.join(ctx.work, "pssim")
     cfg_sim = core.cfg_variant(ctx, "C19_pubsub.cfg", "C19_pubsub_sim.cfg", {"MaxCalls": 9, "Caps": "{0, 1, 2}"},
                                drop_view=True, drop_properties=True)
@@ -362,7 +433,7 @@ def pubsub_body(ctx, st, main_ex, main_futs):
 # indexing half
 # ------------------------------------------------------------------------------------------
 IX_NUM = ["1", "3", "5", "7", "10", "12", "1.5", "2.75", "10atom", "abc", "", "007", "3/4", "-5"]
-IX_STR = ["x", "xy", "y", "y/z", "", "abc"]
+IX_STR = ["x", "xy", "y", "y/z", "", "abc", "x y", "x  y", "XY"]
 IX_INTS = ["1", "3", "5", "7", "10"]
 IX_FLOATS = ["1.5", "2.75", "10."]
 RANGE_OPS = ["<", "<=", ">", ">="]
@@ -448,13 +519,20 @@ USER_SUBS = [
     [C("tm.event", "=", "str", "NewBlock")],
     [C("blk.n", ">=", "int", "5")],                                # errors on non-numeric blk.n (block events)
     [C("a", "EXISTS")],
+    [C("a.s", "=", "str", "x y")],                                 # near-duplicates (see NEAR_DUP)
+    [C("a.s", "=", "str", "x  y")],
+    [C("a.s", "=", "str", "XY")],
+    [C("a.s", "=", "str", "xy")],
 ]
 
 
 def rnd_user_subs(rng):
     subs = []
-    for i, qi in enumerate(rng.sample(range(len(USER_SUBS)), rng.randint(2, 5))):
-        subs.append({"c": "u%d" % (i + 1), "q": USER_SUBS[qi], "cap": rng.choice([0, 0, 1, 2])})
+    pick = rng.sample(range(len(USER_SUBS) - 4), rng.randint(2, 4))
+    if rng.random() < 0.7:
+        pick += rng.choice([[8, 9], [9, 8], [10, 11], [11, 10]])
+    for i, qi in enumerate(pick):
+        subs.append({"c": "u%d" % (i + 1), "q": USER_SUBS[qi], "cap": rng.choice([0, 0, 0, 1, 2])})
     return subs
 
 
@@ -712,14 +790,15 @@ def replay(ctx, path):
     else:
         reset = prefix[0]
         if reset.get("ev") == "Eval":
-            scheds, evals = [], [{"q": r["q"], "events": r["events"]} for r in prefix]
+            scheds, evals = [], [{"q": r["q"], "spell": r.get("spell", 0), "events": r["events"]} for r in prefix]
         else:
             steps = []
             for r in prefix[1:]:
                 if r["ev"] == "Stop":
                     continue
                 steps.append({"op": r["ev"], "c": r["c"], "q": r["q"], "cap": r["cap"], "sid": r["sid"], "events": r["events"]})
-            scheds = [{"clients": reset["clients"], "queries": reset["queries"], "cmdcap": reset["cmdcap"], "steps": steps,
+            scheds = [{"clients": reset["clients"], "queries": reset["queries"],
+                       "spell": reset.get("spell", [0] * len(reset["queries"])), "cmdcap": reset["cmdcap"], "steps": steps,
                        "reps": 200, "tag": "replay"}]
             evals = []
         inp = os.path.join(ctx.work, "c19-ps-in.json")
